@@ -73,9 +73,89 @@ pub fn real_internal(goal: &Leaf, cands: &[Leaf; KMAX], k: usize, s: u8) -> (boo
   r
 }
 
+/// `Pattern::fixed_string()` of the nested pattern  call[ call[ T1 T2 ] T3 ]  (texts of
+/// distinct lengths 4, 2, 3; named bits given) at strictness `s`: the length of the result.
+/// A token may only be required of the file text if the strictness level really compares its
+/// text: never under `signature`, only named tokens under `ast` / `relaxed` (unnamed pattern
+/// tokens can be skipped at ANY depth: `should_skip_goal`, decided by c03_should_skip_goal).
+pub fn nested_fixed_len(named: [bool; 3], s: u8) -> usize {
+  nested_fixed_len_w(named, s, true)
+}
+
+/// `with_t2 == false`: the lighter pattern  call[ call[ T1 ] T3 ]
+pub fn nested_fixed_len_w(named: [bool; 3], s: u8, with_t2: bool) -> usize {
+  let t = |text: &str, is_named: bool, kind: u16| PatternNode::Terminal { text: text.to_string(), is_named, kind_id: kind };
+  let inner = PatternNode::Internal {
+    kind_id: K_CALL,
+    children: if with_t2 {
+      vec![t("kkkk", named[0], mock_ts::K_IDENT), t("xx", named[1], mock_ts::K_NUMBER)]
+    } else {
+      vec![t("kk", named[0], mock_ts::K_IDENT)]
+    },
+  };
+  let node = PatternNode::Internal { kind_id: K_CALL, children: vec![inner, t(if with_t2 { "yyy" } else { "y" }, named[2], mock_ts::K_IDENT)] };
+  let p: ast_grep_core::Pattern<HL> =
+    ast_grep_core::verif_hooks::pattern::pattern_from_parts(node, None, strictness_of(s));
+  let fixed = p.fixed_string();
+  let n = fixed.len();
+  std::mem::forget(fixed);
+  std::mem::forget(p);
+  n
+}
+
+/// the smallest nested pattern  call[ call[ T1 ] ]  (T1 = "kk"): length of fixed_string()
+pub fn nested_one_fixed_len(named: bool, s: u8) -> usize {
+  let t1 = PatternNode::Terminal { text: "kk".to_string(), is_named: named, kind_id: mock_ts::K_IDENT };
+  let inner = PatternNode::Internal { kind_id: K_CALL, children: vec![t1] };
+  let node = PatternNode::Internal { kind_id: K_CALL, children: vec![inner] };
+  let p: ast_grep_core::Pattern<HL> =
+    ast_grep_core::verif_hooks::pattern::pattern_from_parts(node, None, strictness_of(s));
+  let fixed = p.fixed_string();
+  let n = fixed.len();
+  std::mem::forget(fixed);
+  std::mem::forget(p);
+  n
+}
+
+pub fn nested_fixed_len_spec(named: [bool; 3], s: u8) -> usize {
+  nested_fixed_len_spec_w(named, s, true)
+}
+pub fn nested_fixed_len_spec_w(named: [bool; 3], s: u8, with_t2: bool) -> usize {
+  let lens = if with_t2 { [4usize, 2, 3] } else { [2usize, 0, 1] };
+  let mut best = 0;
+  let mut i = 0;
+  while i < 3 {
+    let required = match s {
+      0 | 1 => true,
+      2 | 3 => named[i],
+      _ => false,
+    };
+    if required && lens[i] > best {
+      best = lens[i];
+    }
+    i += 1;
+  }
+  best
+}
+
 #[cfg(test)]
 mod tests {
   use super::*;
+  #[test]
+  fn nested_native() {
+    for s in 0..5u8 {
+      for named in [true, false] {
+        let req = match s { 0 | 1 => true, 2 | 3 => named, _ => false };
+        assert_eq!(nested_one_fixed_len(named, s), if req { 2 } else { 0 });
+      }
+    }
+    for s in 0..5u8 {
+      for m in 0..8u8 {
+        let named = [m & 1 != 0, m & 2 != 0, m & 4 != 0];
+        assert_eq!(nested_fixed_len(named, s), nested_fixed_len_spec(named, s), "{named:?} {s}");
+      }
+    }
+  }
   #[test]
   fn internal_unnamed_goal_skipped_under_ast() {
     let goal = Leaf { kind: mock_ts::K_PUNCT_A, named: false, text: anon_text(mock_ts::K_PUNCT_A) };
@@ -110,6 +190,51 @@ mod tests {
 #[cfg(kani)]
 mod proofs {
   use super::*;
+
+  #[kani::proof]
+  #[kani::unwind(8)]
+  fn c01_prefilter_nested_tokens() {
+    let named: [bool; 3] = [kani::any(), kani::any(), kani::any()];
+    let s: u8 = kani::any();
+    kani::assume(s < 5);
+    let got = nested_fixed_len(named, s);
+    let want = nested_fixed_len_spec(named, s);
+    kani::cover!(want == 4 && s == 2);
+    kani::cover!(want == 2);
+    kani::cover!(want == 0 && s == 3);
+    assert!(got == want, "fixed_string only draws on tokens whose text the strictness level compares");
+  }
+
+  #[kani::proof]
+  #[kani::unwind(8)]
+  fn c01_prefilter_nested_one_token() {
+    let named: bool = kani::any();
+    let s: u8 = kani::any();
+    kani::assume(s < 5);
+    let got = nested_one_fixed_len(named, s);
+    let required = match s {
+      0 | 1 => true,
+      2 | 3 => named,
+      _ => false,
+    };
+    kani::cover!(required && s == 2);
+    kani::cover!(!required && s == 3);
+    assert!(got == if required { 2 } else { 0 }, "fixed_string only draws on tokens whose text the strictness level compares");
+  }
+
+  #[kani::proof]
+  #[kani::unwind(8)]
+  fn c01_prefilter_nested_two_tokens() {
+    let named: [bool; 3] = [kani::any(), false, kani::any()];
+    let s: u8 = kani::any();
+    kani::assume(s < 5);
+    let got = nested_fixed_len_w(named, s, false);
+    let want = nested_fixed_len_spec_w(named, s, false);
+    kani::cover!(want == 2 && s == 2);
+    kani::cover!(want == 1 && s == 3);
+    kani::cover!(want == 0 && s == 3);
+    assert!(got == want, "fixed_string only draws on tokens whose text the strictness level compares");
+  }
 
   fn internal(k: usize) {
     let goal = any_leaf(false);
